@@ -1,6 +1,7 @@
 package props
 
 import (
+	"strings"
 	"verifsim/kit"
 )
 
@@ -117,9 +118,16 @@ func (f *recFilter) Write(p []byte) ([]byte, int) {
 			out = append(out, rec...)
 			f.Fired = append(f.Fired, firedFault{Kind: "insert", Rec: i})
 		case "trunc":
-			k := 1 + wf.Off%(len(rec)-1)
+			k := 1 + wf.Off%(len(rec)-1) // 1 .. len-1: the stream always ends strictly inside the record
+			if strings.HasPrefix(wf.Reg, "hdr") {
+				k = 1 + wf.Off%4 // inside the 5-byte record header
+			}
 			out = append(out, rec[:k]...)
-			f.Fired = append(f.Fired, firedFault{Kind: "trunc", Rec: i})
+			kind := "trunc"
+			if k < 5 {
+				kind = "trunc.hdr"
+			}
+			f.Fired = append(f.Fired, firedFault{Kind: kind, Rec: i})
 			cut := kit.CutFIN
 			if wf.RST {
 				cut = kit.CutRST
